@@ -588,10 +588,26 @@ def check_aref(ctx, db):
               'writer limit is 65535 but the reader decodes COLROW through a signed 16-bit accessor (counts above 32767 re-load as huge values)')
     # reader: lattice from corners divided by the counts
     xy = [x for x in g.walk() if is_assign(x) and re.match(r'^repetition->(spacing|v1|v2)\.[xy]$', norm(x.child('lhs').text()))]
-    t = {norm(x.child('lhs').text()): norm(x.child('rhs').text()) for x in xy}
-    ok = t.get('repetition->spacing.x') == '(((factor * data32[2]) - origin.x) / repetition->columns)' and t.get('repetition->spacing.y') == '(((factor * data32[5]) - origin.y) / repetition->rows)' and \
-        t.get('repetition->v1.y') == '(((factor * data32[3]) - origin.y) / repetition->columns)' and t.get('repetition->v2.x') == '(((factor * data32[4]) - origin.x) / repetition->rows)'
-    ctx.check(ok, 'R-DEP', 'read_gds/AREF-lattice', g.loc(), 'pitch vectors are (corner - origin) / count with columns for the second and rows for the third corner')
+    # the stored pitch components, evaluated (sa/minieval, exact rationals) for the AREF points (1, 2) (41, 12) (7, 62) with factor 1/2 and
+    # 4 columns x 3 rows: second corner - origin over the columns, third corner - origin over the rows
+    from .. import minieval as _M
+    from fractions import Fraction as _F
+    fac = _F(1, 2)
+    d32 = [2, 4, 82, 24, 14, 124]
+    org = (fac * d32[0], fac * d32[1])
+    want = {'v1.x': (fac * d32[2] - org[0]) / 4, 'v1.y': (fac * d32[3] - org[1]) / 4, 'v2.x': (fac * d32[4] - org[0]) / 3, 'v2.y': (fac * d32[5] - org[1]) / 3}
+    want['spacing.x'], want['spacing.y'] = want['v1.x'], want['v2.y']
+    got = {}
+    for x in xy:
+        mi_ = _M.Mini(db, budget=2000)
+        mi_.obj_store = True
+        env_ = {'factor': fac, 'data32': _M.Ptr(list(d32), 0), 'origin': _M.Obj(x=org[0], y=org[1]), 'repetition': _M.Obj(columns=4, rows=3), 'reference': _M.Obj(origin=_M.Obj(x=org[0], y=org[1]))}
+        try:
+            got[norm(x.child('lhs').text()).split('->')[-1]] = mi_.ev(x.child('rhs'), env_)
+        except AnalysisBroken as ex:
+            got[norm(x.child('lhs').text()).split('->')[-1]] = 'not evaluable (%s)' % ex
+    ok = len(got) >= 4 and all(k_ in want and isinstance(v_, (int, _F)) and _F(v_) == want[k_] for k_, v_ in got.items()) and {'spacing.x', 'spacing.y'} <= set(got) and {'v1.x', 'v1.y', 'v2.x', 'v2.y'} <= set(got)
+    ctx.check(ok, 'R-DEP', 'read_gds/AREF-lattice', g.loc(), 'pitch vectors are (corner - origin) / count with columns for the second and rows for the third corner', 'for the AREF corners (1, 2) (41, 12) (7, 62), 4 columns and 3 rows the reader stores %s, expected %s' % ({k_: str(v_) for k_, v_ in got.items()}, {k_: str(v_) for k_, v_ in want.items()}))
 
 
 def run(ctx):
